@@ -1330,11 +1330,17 @@ class SubElementTextListProperty(_ElementListProperty):
 
     def __init__(self, sub_element_name: etree.QName | None, value_class: Any, is_optional: bool = True):
         super().__init__(sub_element_name, ListConverter(ClassCheckConverter(value_class)), is_optional=is_optional)
+        self._value_class = value_class
+
+    def _text_to_py(self, text: str | None) -> Any:
+        if self._value_class is str:
+            return text or ''  # libxml sets text of an empty element to None
+        return self._value_class(text)
 
     def get_py_value_from_node(self, instance: Any, node: xml_utils.LxmlElement) -> Any:  # noqa: ARG002
         """Read value from node."""
         nodes = node.findall(self._sub_element_name)
-        return [_node.text for _node in nodes]
+        return [self._text_to_py(_node.text) for _node in nodes]
 
     def update_xml_value(self, instance: Any, node: xml_utils.LxmlElement):
         """Write value to node."""
@@ -1353,7 +1359,7 @@ class SubElementTextListProperty(_ElementListProperty):
         for val in py_value:
             child = etree.SubElement(node, self._sub_element_name)
             try:
-                child.text = val
+                child.text = val if isinstance(val, str) or self._value_class is str else str(val)
             except TypeError as ex:
                 # re-raise with better info about data
                 raise TypeError(f'{ex} in {self}') from ex  # noqa: EM102
